@@ -33,21 +33,21 @@ Proof.
   - induction refs as [|x l IH]; cbn [map flat_map]; [reflexivity | now rewrite IH].
 Qed.
 
-(* one linking step is right when the notation comes last and the referenced SEQUENCE types are already in their
-   expanded state *)
-Theorem link_one_meets_spec f ds st n own refs :
+(* one linking step is right when the notation comes last and the referenced types, of the kind (SEQUENCE / SET) of the
+   including one, are already in their expanded state *)
+Theorem link_one_meets_spec f ds st n k own refs :
   (forall r, In r refs -> exists d t,
-       find_def r ds = Some d /\ t_is_seq d = true /\ find_state r st = Some t /\ l_is_seq t = true /\
-       l_members t = expand f ds true (t_items d)) ->
-  l_members (link_one st (init_state (mktdef n true (map Own own ++ map ComponentsOf refs)))) =
-  expand (S f) ds true (map Own own ++ map ComponentsOf refs).
+       find_def r ds = Some d /\ t_is_seq d = k /\ find_state r st = Some t /\
+       l_members t = expand f ds k (t_items d)) ->
+  l_members (link_one st (init_state (mktdef n k (map Own own ++ map ComponentsOf refs)))) =
+  expand (S f) ds k (map Own own ++ map ComponentsOf refs).
 Proof.
   intro H. rewrite expand_trailing. unfold link_one, init_state. cbn [l_members l_refs t_items t_name t_is_seq].
   rewrite own_names_app, own_names_owns, own_names_refs, app_nil_r.
   rewrite refs_of_app, refs_of_owns, refs_of_refs. cbn [app]. f_equal.
   induction refs as [|r l IH]; [reflexivity|]. cbn [flat_map].
-  destruct (H r (or_introl eq_refl)) as [d [t [Hd [Hk [Ht [Hs Hm]]]]]].
-  rewrite Hd, Ht, Hs, Hk, Hm. cbn [Bool.eqb]. f_equal. apply IH. intros r' Hr'. apply H. now right.
+  destruct (H r (or_introl eq_refl)) as [d [t [Hd [Hk [Ht Hm]]]]].
+  rewrite Hd, Ht, Hk, Hm, Bool.eqb_reflx. f_equal. apply IH. intros r' Hr'. apply H. now right.
 Qed.
 
 (* the selection type picks the alternative of that name *)
@@ -95,10 +95,10 @@ Theorem components_of_chain_other_names :
   linked_members ds nA = Some [n_flag; n_label; n_id].
 Proof. vm_compute. reflexivity. Qed.
 
-(* COMPONENTS OF a SET type *)
-Theorem components_of_set_refuted :
+(* COMPONENTS OF a SET type (copied nothing before the fix of the SET case; now linked like a SEQUENCE) *)
+Theorem components_of_set_linked :
   let ds := [mktdef nS false [Own na]; mktdef nT false [Own ne; ComponentsOf nS]] in
-  expanded_members ds nT = Some [ne; na] /\ linked_members ds nT = Some [ne].
+  expanded_members ds nT = Some [ne; na] /\ linked_members ds nT = Some [ne; na].
 Proof. vm_compute. split; reflexivity. Qed.
 
 (* ================= the whole pass, for chains of depth one ================= *)
@@ -211,12 +211,12 @@ Proof.
   apply in_map_iff. exists (t_name d, d). split; [exact Hn|]. now apply in_from_list.
 Qed.
 
-(* for every definition whose COMPONENTS OF entries come last and refer to SEQUENCE types that use no COMPONENTS OF
+(* for every definition whose COMPONENTS OF entries come last and refer to types of its kind that use no COMPONENTS OF
    themselves, whatever else the module contains and however the names sort, the pass yields the expansion *)
-Theorem link_pass_depth_one ds n own refs :
+Theorem link_pass_depth_one ds n k own refs :
   NoDup (map t_name ds) ->
-  find_def n ds = Some (mktdef n true (map Own own ++ map ComponentsOf refs)) ->
-  (forall r, In r refs -> r <> n /\ exists dr, find_def r ds = Some dr /\ t_is_seq dr = true /\ refs_of (t_items dr) = []) ->
+  find_def n ds = Some (mktdef n k (map Own own ++ map ComponentsOf refs)) ->
+  (forall r, In r refs -> r <> n /\ exists dr, find_def r ds = Some dr /\ t_is_seq dr = k /\ refs_of (t_items dr) = []) ->
   linked_members ds n = expanded_members ds n.
 Proof.
   intros Hnd Hd Hrefs. unfold linked_members, expanded_members. rewrite Hd. cbn [option_map t_is_seq t_items].
@@ -228,9 +228,9 @@ Proof.
   rewrite Hsplit, fold_left_app. cbn [fold_left].
   set (st0 := map init_state ds). set (st1 := fold_left step a st0).
   rewrite (fold_other b _ n Hnb).
-  assert (Hn1 : find_state n st1 = Some (init_state (mktdef n true (map Own own ++ map ComponentsOf refs)))).
+  assert (Hn1 : find_state n st1 = Some (init_state (mktdef n k (map Own own ++ map ComponentsOf refs)))).
   { unfold st1. rewrite (fold_other a st0 n Hna). now apply find_init. }
-  assert (Hr1 : forall r, In r refs -> exists dr, find_def r ds = Some dr /\ t_is_seq dr = true /\ refs_of (t_items dr) = [] /\
+  assert (Hr1 : forall r, In r refs -> exists dr, find_def r ds = Some dr /\ t_is_seq dr = k /\ refs_of (t_items dr) = [] /\
                                                find_state r st1 = Some (init_state dr)).
   { intros r Hr. destruct (Hrefs r Hr) as [_ [dr [Hf [Hk Hn0]]]]. exists dr. repeat split; try assumption.
     unfold st1. apply fold_stable; [now apply find_init | exact Hn0]. }
@@ -246,7 +246,7 @@ Proof.
   rewrite own_names_app, own_names_owns, own_names_refs, app_nil_r, refs_of_app, refs_of_owns, refs_of_refs. cbn [app]. f_equal.
   clear Hn1 Hd Hsplit Hnodup Hna Hnb Hsame Hnm. induction refs as [|r l IH]; [reflexivity|]. cbn [flat_map].
   destruct (Hr1 r (or_introl eq_refl)) as [dr [Hf [Hk [Hn0 Hs]]]].
-  rewrite Hs, Hf, Hk. cbn [init_state l_is_seq l_members Bool.eqb]. rewrite Hk. cbn [Bool.eqb].
+  rewrite Hs, Hf, Hk, Bool.eqb_reflx. cbn [init_state l_members].
   rewrite (expand_owns _ _ _ _ Hn0). f_equal. apply IH.
   - intros r' Hr'. apply Hrefs. now right.
   - intros r' Hr'. apply Hr1. now right.
